@@ -1542,7 +1542,7 @@ class Solid:
             self.vis_shown if keep_vis else True,
             self.vis_auto_shown if keep_vis else True,
             self.is_cordon,
-            self.editor_color,
+            self.editor_color.copy(),
         )
 
     @classmethod
